@@ -349,6 +349,68 @@ def run_chain(qname, seq, via=None):
 
 
 VIAS = (None, "PipeQueueCL", "NormalQueueCL", "BypassQueueCL")
+WRAP_QUEUES = ("NormalQueueRTL", "PipeQueueRTL", "BypassQueueRTL")
+
+
+def run_wrap(qname, seq):
+  """queues.py RTL queue inside a wrapper whose enq AND deq side are cycle-level methods (RecvCL2SendRTL / GetRTL2GiveCL inserted by
+  connect()); a driver block calls them: delivered is a prefix of accepted, bounded buffering, nothing lost after draining"""
+  import pymtl3.stdlib.queues.queues as Q
+  from pymtl3 import Component, CalleeIfcCL, Bits2, b2, update_once, connect, DefaultPassGroup
+
+  class Wrap(Component):
+    def construct(s):
+      s.enq = CalleeIfcCL(); s.deq = CalleeIfcCL()
+      s.q = getattr(Q, qname)(Bits2, 2)
+      connect(s.enq, s.q.enq)
+      connect(s.q.deq, s.deq)
+
+  class Top(Component):
+    def construct(s):
+      s.w = Wrap()
+      s.want = 0; s.msg = 0; s.ok = 0; s.acc = []; s.got = []
+
+      @update_once
+      def up_drive_enq():
+        if s.want and s.w.enq.rdy(): s.w.enq(b2(s.msg)); s.acc.append(s.msg)
+
+      @update_once
+      def up_drive_deq():                 # a block of its own: a bypass queue orders the producer before the consumer
+        if s.ok and s.w.deq.rdy(): s.got.append(int(s.w.deq()))
+
+  fails = []
+  try:
+    t = Top(); t.elaborate(); t.apply(DefaultPassGroup()); t.sim_reset()
+  except Exception as ex:
+    return [("build-raised", "elaborates (adapters inserted by connect)", f"{type(ex).__name__}: {' '.join(str(ex).split())[:140]}", "")]
+  cap = 2 + 2
+  def step(w, m, ok, i):
+    t.want, t.msg, t.ok = w, m, ok
+    try: t.sim_tick()
+    except Exception as ex:
+      fails.append(("sim-raised", "no exception", f"{type(ex).__name__}: {str(ex)[:100]}", f"step {i}")); return False
+    if t.got != t.acc[:len(t.got)]: fails.append(("order-or-invented", list(t.acc), list(t.got), f"step {i}")); return False
+    if len(t.acc) - len(t.got) > cap: fails.append(("more-buffered-than-capacity", f"<= {cap}", len(t.acc) - len(t.got), f"step {i}")); return False
+    return True
+  for i, (w, m, ok) in enumerate(seq):
+    if not step(w, m, ok, i): return fails
+  for k in range(cap + 4):
+    if not step(0, 0, 1, f"drain{k}"): return fails
+  if t.got != t.acc: fails.append(("lost", list(t.acc), list(t.got), "after draining"))
+  return fails
+
+
+def explore_wrap(qname, tier, acc):
+  L = 4 if tier == "quick" else 6
+  letters = [(0, 0, 0), (0, 0, 1)] + [(1, m, ok) for m in (1, 2) for ok in (0, 1)]
+  for k in range(1, L + 1):
+    for seq in itertools.product(letters, repeat=k):
+      fails = run_wrap(qname, seq)
+      acc.count("executions"); acc.count("chain_executions"); acc.count("transitions", len(seq))
+      for f in fails:
+        acc.violation(f"wrap:{qname}:{f[0]}", dict(kind="wrap", queue=qname, seq=[list(x) for x in seq]), f[1], f[2], f[3])
+      if fails: return
+  acc.add("configs", ("wrap", qname, "Bits2"))
 
 
 def explore_chain(qname, tier, acc):
@@ -382,11 +444,14 @@ def shards(tier):
       S.append((key, caps[0] if tier == "quick" else min(caps[-1], 2), "struct", (1, 2, 3)))
   # largest first for load balance
   S.sort(key=lambda s: -(len(s[3]) + 1) ** s[1])
-  return S + [("chain", q) for q in CHAIN_QUEUES]
+  return S + [("chain", q) for q in CHAIN_QUEUES] + [("wrap", q) for q in WRAP_QUEUES]
 
 
 def run_shard(shard, tier, seed):
   acc = Acc()
+  if shard[0] == "wrap":
+    explore_wrap(shard[1], tier, acc)
+    return acc
   if shard[0] == "chain":
     explore_chain(shard[1], tier, acc)
     return acc
@@ -396,6 +461,8 @@ def run_shard(shard, tier, seed):
 
 
 def replay(case):
+  if case.get("kind") == "wrap":
+    return [(f"wrap:{case['queue']}:{f[0]}", f[1], f[2], f[3]) for f in run_wrap(case["queue"], [tuple(x) for x in case["seq"]])]
   if case.get("kind") == "chain":
     return [(f"chain:{case['queue']}:{f[0]}", f[1], f[2], f[3]) for f in run_chain(case["queue"], [tuple(x) for x in case["seq"]], case.get("via"))]
   im = Impl(case["key"], case["cap"], case["T"])
